@@ -9,7 +9,6 @@ import (
 	goparser "go/parser"
 	gotoken "go/token"
 	"path/filepath"
-	"reflect"
 	"runtime/debug"
 	"sort"
 	"strings"
@@ -202,6 +201,9 @@ func compareChildren(how string, parent goast.Node, exp []astx.Child, act []goas
 	if same {
 		return
 	}
+	if _, isPkg := parent.(*ast.Package); isPkg {
+		return // Package.Files is a map: "for _, f := range n.Files" has no order
+	}
 	if parsed { // source order: accepted when the positions are non-decreasing
 		sorted := true
 		last := gotoken.NoPos
@@ -264,54 +266,68 @@ func shallowWalk(n goast.Node) (s *shallow, panicked any, stack string) {
 
 // ---- full walks ------------------------------------------------------------------------------
 
+// occ is one visit of a node (a node the parser shares between two parents, e.g. the lead
+// comment that is both File.Doc and the first declaration's Doc in a file without package
+// clause, is visited once per occurrence, like the reflection reference does).
+type occ struct {
+	node goast.Node
+	kids []goast.Node
+}
+
 type recorder struct {
 	how      string
-	kids     map[goast.Node][]goast.Node // parent (nil = above the root) → children in visit order
-	entered  []goast.Node
-	stack    []goast.Node
+	rootOcc  *occ
+	occs     []*occ
+	stack    []*occ
 	problems []*vk.Verdict
 }
 
 type deepV struct {
-	r    *recorder
-	node goast.Node
+	r *recorder
+	o *occ
+}
+
+func (r *recorder) enter(parent *occ, n goast.Node) *occ {
+	parent.kids = append(parent.kids, n)
+	o := &occ{node: n}
+	r.occs = append(r.occs, o)
+	r.stack = append(r.stack, o)
+	return o
 }
 
 func (d *deepV) Visit(n ast.Node) ast.Visitor {
 	r := d.r
 	if n == nil {
-		if len(r.stack) == 0 || r.stack[len(r.stack)-1] != d.node {
-			r.problems = append(r.problems, vk.Bad("nil-call:"+astx.TypeName(d.node), "%s: Visit(nil) arrives on the visitor of %s while the innermost open node is %v", r.how, describe(d.node), top(r.stack)))
+		if len(r.stack) == 0 || r.stack[len(r.stack)-1] != d.o {
+			r.problems = append(r.problems, vk.Bad("nil-call:"+astx.TypeName(d.o.node), "%s: Visit(nil) arrives on the visitor of %s while the innermost open node is %v", r.how, describe(d.o.node), topNode(r.stack)))
 			return nil
 		}
 		r.stack = r.stack[:len(r.stack)-1]
 		return nil
 	}
-	if t := top(r.stack); t != d.node {
-		r.problems = append(r.problems, vk.Bad("nil-call:"+astx.TypeName(t), "%s: %s is visited through the visitor of %v while %v is still open (its Visit(nil) is missing)", r.how, describe(n), d.node, t))
+	if len(r.stack) > 0 && r.stack[len(r.stack)-1] != d.o || len(r.stack) == 0 && d.o != r.rootOcc {
+		t := topNode(r.stack)
+		r.problems = append(r.problems, vk.Bad("nil-call:"+astx.TypeName(t), "%s: %s is visited through the visitor of %v while %v is still open (its Visit(nil) is missing)", r.how, describe(n), d.o.node, t))
 	}
-	r.kids[d.node] = append(r.kids[d.node], n)
-	r.entered = append(r.entered, n)
-	r.stack = append(r.stack, n)
-	return &deepV{r, n}
+	return &deepV{r, r.enter(d.o, n)}
 }
 
-func top(s []goast.Node) goast.Node {
+func topNode(s []*occ) goast.Node {
 	if len(s) == 0 {
 		return nil
 	}
-	return s[len(s)-1]
+	return s[len(s)-1].node
 }
 
 func deepWalk(root goast.Node, inspect bool) (r *recorder, panicked any, stack string) {
-	r = &recorder{how: "ast.Walk", kids: map[goast.Node][]goast.Node{}}
+	r = &recorder{how: "ast.Walk", rootOcc: &occ{}}
 	defer func() {
 		if p := recover(); p != nil {
 			panicked, stack = p, string(debug.Stack())
 		}
 	}()
 	if !inspect {
-		ast.Walk(&deepV{r, nil}, root)
+		ast.Walk(&deepV{r, r.rootOcc}, root)
 		return
 	}
 	r.how = "ast.Inspect"
@@ -324,10 +340,11 @@ func deepWalk(root goast.Node, inspect bool) (r *recorder, panicked any, stack s
 			r.stack = r.stack[:len(r.stack)-1]
 			return false
 		}
-		p := top(r.stack)
-		r.kids[p] = append(r.kids[p], n)
-		r.entered = append(r.entered, n)
-		r.stack = append(r.stack, n)
+		p := r.rootOcc
+		if len(r.stack) > 0 {
+			p = r.stack[len(r.stack)-1]
+		}
+		r.enter(p, n)
 		return true
 	})
 	return
@@ -401,8 +418,8 @@ func traverse(c Case) (*vk.Verdict, info) {
 		r, p, st := deepWalk(root, inspect)
 		if p != nil {
 			last := goast.Node(nil)
-			if len(r.entered) > 0 {
-				last = r.entered[len(r.entered)-1]
+			if len(r.occs) > 0 {
+				last = r.occs[len(r.occs)-1].node
 			}
 			vs.add(vk.Bad("panic:"+astx.TypeName(last), "%s panics below %s at %s: %v [%s]", r.how, describe(root), describe(last), p, trimStack(st)))
 			continue
@@ -411,18 +428,18 @@ func traverse(c Case) (*vk.Verdict, info) {
 			vs.add(v)
 		}
 		if len(r.stack) != 0 {
-			vs.add(vk.Bad("nil-call:"+astx.TypeName(top(r.stack)), "%s: %d nodes never got their Visit(nil), innermost %s", r.how, len(r.stack), describe(top(r.stack))))
+			vs.add(vk.Bad("nil-call:"+astx.TypeName(topNode(r.stack)), "%s: %d nodes never got their Visit(nil), innermost %s", r.how, len(r.stack), describe(topNode(r.stack))))
 		}
-		if got := r.kids[nil]; len(got) != 1 || got[0] != root {
+		if got := r.rootOcc.kids; len(got) != 1 || got[0] != root {
 			vs.add(vk.Bad("root", "%s: the first visit is not the root (%d top-level visits)", r.how, len(got)))
 		}
-		for n, kids := range exp {
-			compareChildren(r.how, n, kids, r.kids[n], parsed, &vs)
-		}
-		for n := range r.kids {
-			if _, ok := exp[n]; !ok && n != nil {
-				vs.add(vk.Bad("extra:"+astx.TypeName(n), "%s: visits %s, which the tree does not hold", r.how, describe(n)))
+		for _, o := range r.occs { // a node that was itself skipped is reported once, at its parent
+			kids, ok := exp[o.node]
+			if !ok {
+				vs.add(vk.Bad("extra:"+astx.TypeName(o.node), "%s: visits %s, which the tree does not hold", r.how, describe(o.node)))
+				continue
 			}
+			compareChildren(r.how, o.node, kids, o.kids, parsed, &vs)
 		}
 	}
 	return vs.best, in
@@ -473,16 +490,6 @@ func run(t failer, c Case, class string) {
 }
 
 // ---- self-test: the registry of node kinds is complete ---------------------------------------
-
-// declaredNodeTypes parses the non-test files of <repo>/ast and returns every type that has
-// both a Pos and an End method (plus the aliases of go/ast comment nodes).
-func declaredNodeTypes() ([]string, error) {
-	dir := filepath.Join(lex.RepoDir(), "ast")
-	fset := gotoken.NewFileSet()
-	pkgs, err := goparser.ParseDir(fset, dir, func(fi interface{ Name() string }) bool { return true }.filter(), 0)
-	_ = pkgs
-	return nil, err
-}
 
 func TestRegistryComplete(t *testing.T) {
 	dir := filepath.Join(lex.RepoDir(), "ast")
@@ -626,7 +633,7 @@ func TestEveryKind(t *testing.T) {
 
 func TestSynth(t *testing.T) {
 	names := astgen.TypeNames()
-	vk.R.Rapid(t, 1, 6000, 200000, func(t *rapid.T) {
+	vk.R.Rapid(t, 1, 12000, 300000, func(t *rapid.T) {
 		c := Case{Kind: "synth",
 			Root:     rapid.SampledFrom(names).Draw(t, "root"),
 			Depth:    rapid.IntRange(1, 6).Draw(t, "depth"),
@@ -645,17 +652,16 @@ var names = []string{"a.xgo", "a.xgo", "a.gop", "A.gox", "A_spx.gox", "main.spx"
 
 func TestCorpusMutants(t *testing.T) {
 	g := lex.CorpusMutant(append(append([]string{}, lex.XGoExts...), ".go")...)
-	vk.R.Rapid(t, 2, 3000, 60000, func(t *rapid.T) {
+	vk.R.Rapid(t, 2, 5000, 100000, func(t *rapid.T) {
 		src := g.Draw(t, "src")
 		run(t, Case{Kind: "src", Name: rapid.SampledFrom(names).Draw(t, "name"), Src: src}, "src=corpus-mutant")
 	})
 }
 
 func TestGeneratedXGo(t *testing.T) {
-	g := xgotext.File()
-	vk.R.Rapid(t, 3, 3000, 60000, func(t *rapid.T) {
-		src := g.Draw(t, "src")
+	vk.R.Rapid(t, 3, 5000, 100000, func(t *rapid.T) {
 		name := rapid.SampledFrom([]string{"a.xgo", "a.xgo", "A.gox", "main.spx"}).Draw(t, "name")
+		src := xgotext.File(!strings.HasSuffix(name, ".xgo")).Draw(t, "src")
 		run(t, Case{Kind: "src", Name: name, Src: vk.Bytes(src)}, "src=generated-xgo")
 	})
 }
@@ -682,5 +688,3 @@ func TestCorpus(t *testing.T) {
 	}
 	vk.R.Set("corpus_files", int64(n))
 }
-
-var _ = reflect.TypeOf
